@@ -162,7 +162,16 @@ ChainM ==
             [NormalSent |-> Always(1), CounterZero |-> Always(0)]),
          St(Pad(FALSE, TRUE, Const(8), NoDist), Ctr("dec"), CtrCopy("dec"),
             [CounterZero |-> Always(0), NormalSent |-> Always(1), NormalRecv |-> Always(0)])>>)
-CoreMachines == {ProbM, TimerM, ChainM, LimM("pad", Const(1)), SigBoth(8),
+\* samples far beyond the 24 h cap for every timeout / duration
+HugeM ==
+  Mach(1000, Unset, 1000, Unset,
+       <<St(Pad(FALSE, FALSE, Const(HUGE), NoDist), NoCtr, NoCtr,
+            [NormalSent |-> Always(1), NormalRecv |-> Always(0)]),
+         St(Block(FALSE, FALSE, Const(HUGE), Const(HUGE), NoDist), NoCtr, NoCtr,
+            [NormalSent |-> Always(2), NormalRecv |-> Always(1)]),
+         St(UpdTimer(FALSE, Const(HUGE), NoDist), NoCtr, NoCtr,
+            [NormalSent |-> Always(0), NormalRecv |-> Always(2)])>>)
+CoreMachines == {ProbM, TimerM, ChainM, HugeM, LimM("pad", Const(1)), SigBoth(8),
                  BlockM(TRUE, 2, Half), PadM(1, Half)}
 CoreConfs0 == {Cf(<<>>, Unset, Unset), Cf(<<>>, Half, Half)}
 CoreConfs1 == {Cf(<<a>>, Unset, Unset) : a \in CoreMachines}
@@ -181,6 +190,7 @@ FamilyConfs(id) ==
     [] id = "ctr-quick"    -> CtrConfsA(CtrSpecs) \cup CtrConfs2
     [] id = "ctr-thorough" -> CtrConfsAB(CtrSpecs) \cup CtrConfsA(CtrSpecs) \cup CtrConfs2
     [] id = "sig-quick"    -> SigConfs1 \cup SigConfs2
+    [] id = "sig-trio"     -> SigConfs3
     [] id = "sig-thorough" -> SigConfs1 \cup SigConfs2 \cup SigConfs3
     [] id = "core-quick"   -> CoreConfs0 \cup CoreConfs1
     [] id = "core-thorough" -> CoreConfs0 \cup CoreConfs1 \cup CoreConfs2
